@@ -116,6 +116,7 @@ class FSMWorld:
     def __init__(self, real_pollers=False):
         from . import pipeworld
         self.real_pollers = real_pollers
+        self.eager = frozenset()
         pipeworld.install_seams()
         self.threads = []
         self.log = []
@@ -142,6 +143,11 @@ class FSMWorld:
             ww.threads.append(t)
             if t.poller and ww.real_pollers:
                 t.start_real()
+            elif t.kind in getattr(ww, 'eager', ()):
+                # a fast thread: its body has finished before the caller's next
+                # statement (the Deferred is still delivered later, in the
+                # reactor thread)
+                ww.run_thread(t)
             return t.d
 
         twisted.internet.threads.deferToThread = deferToThread
